@@ -89,9 +89,10 @@ def linform(expr, rename=None, inline=None):
     return linear(t, atom=lambda n: ast.unparse(n))
 
 
-def single_assignments(fnode):
+def single_assignments(fnode, allow_mutated=False):
     """name -> value for locals assigned exactly once by a plain `name = expr`
-    (and never augmented / re-bound)."""
+    (never augmented / re-bound, and - unless allow_mutated - never mutated in place)."""
+    mutated = set()
     counts = {}
     vals = {}
     a = fnode.args
@@ -111,4 +112,13 @@ def single_assignments(fnode):
             for x in ast.walk(n.target):
                 if isinstance(x, ast.Name):
                     counts[x.id] = counts.get(x.id, 0) + 2
-    return {k: v for k, v in vals.items() if counts.get(k) == 1}
+        # mutated in place: element / slice stores, mutating method calls
+        if isinstance(n, ast.Subscript) and isinstance(n.ctx, (ast.Store, ast.Del)):
+            b = n.value
+            while isinstance(b, ast.Subscript):
+                b = b.value
+            if isinstance(b, ast.Name):
+                mutated.add(b.id)
+        if isinstance(n, ast.Call) and isinstance(n.func, ast.Attribute) and n.func.attr in ("append", "extend", "insert", "pop", "sort", "update", "fill") and isinstance(n.func.value, ast.Name):
+            mutated.add(n.func.value.id)
+    return {k: v for k, v in vals.items() if counts.get(k) == 1 and (allow_mutated or k not in mutated)}
